@@ -96,7 +96,6 @@ Definition params_of (body : str) : option (list N) :=
   let items := split_char SEMI body in
   if forallb all_digits items then Some (map num_of items) else None.
 
-Definition is_final (c : char) : bool := (64 <=? c) && (c <=? 126).
 
 (* maximal run of non-final characters *)
 Fixpoint span_body (s : str) : str * str :=
